@@ -1,4 +1,12 @@
-"""C18 Circular references terminate and are reported on the cycle -- lock pairing (narrow claim)."""
+"""C18 Circular references terminate and are reported on the cycle -- lock pairing (narrow claim).
+
+R4 (added): _use_node records the dependency edge of a read before the nested _recompute that may
+abort it. The cell the cycle detector refuses to evaluate is never retried, so an edge recorded
+only after the read would never exist for it (seeded change C18-edge-recorded-after-recompute).
+
+Decided on the inlined, alias-normalised form of the anchored functions (helpers in _h_A.py; roles
+of the scheduler loop shared with C06 through c06.LoopRoles / c06.Scan).
+"""
 import ast
 from ..fn import World
 from ..index import AnalysisError, dotted
